@@ -808,9 +808,8 @@ func (s *session) readDisconnected(oldConn net.Conn, err error) {
 			Debugf("disconnect(%s) when reading: %T %s", s.RemoteAddr().String(), err, errStr)
 		}
 	}
-	s.graceCtxWait()
-
-	// cancel the callCmd that is waiting for a reply
+	// cancel the callCmd that is waiting for a reply; do it before waiting for the
+	// running handlers, because a handler may itself be waiting for a call on this session
 	s.callCmdMap.Range(func(_, v interface{}) bool {
 		callCmd := v.(*callCmd)
 		callCmd.mu.Lock()
@@ -820,6 +819,8 @@ func (s *session) readDisconnected(oldConn net.Conn, err error) {
 		callCmd.mu.Unlock()
 		return true
 	})
+
+	s.graceCtxWait()
 
 	if status == statusActiveClosing {
 		return
